@@ -722,6 +722,13 @@ func (c Context) uiOptionsForHandler(opts []UIOption) (string, uiOptions, []Spec
 	if pth == "." {
 		pth = ""
 	}
+	if u != nil && uiOpts.SpecURL != "" && doc == "" {
+		// The spec URL names no document: the spec is served there under its default name,
+		// and the UI must point to that very document.
+		u.Path = path.Join(pth, defaultSpecOptions.Document)
+		u.RawPath = ""
+		uiOpts.SpecURL = u.String()
+	}
 
 	return pth, uiOpts, []SpecOption{WithSpecDocument(doc)}
 }
